@@ -238,6 +238,7 @@ type RunOpts struct {
 	Workers   int
 	Verbose   bool
 	Deadline  time.Time // zero = none; applies to jobs with Stage > 0
+	DeadlineAll bool    // the deadline applies to every job (quick tier's safety net)
 }
 
 func isRuxInit(fn *ssa.Function) bool {
@@ -436,7 +437,7 @@ func runJobs(w *World, jobs []Job, opts RunOpts) []*JobResult {
 					js.res.Complete = false
 					js.res.Stats.OutOfBound["path budget exhausted"]++
 				}
-				if !over && js.res.Job.Stage > 0 && !opts.Deadline.IsZero() && time.Now().After(opts.Deadline) {
+				if !over && (js.res.Job.Stage > 0 || opts.DeadlineAll) && !opts.Deadline.IsZero() && time.Now().After(opts.Deadline) {
 					over = true
 					if js.res.Complete {
 						js.res.Complete = false
